@@ -14,10 +14,10 @@ import (
 // shared anchors for the opcode tables
 
 type opcodeTables struct {
-	consts   []*types.Const          // all constants of type bytecode.OpCode, by value
-	byVal    map[int64]*types.Const  // value -> constant
-	runLoop  *FuncRef                // the VM run loop
-	runSw    *ast.SwitchStmt         // its opcode switch
+	consts   []*types.Const         // all constants of type bytecode.OpCode, by value
+	byVal    map[int64]*types.Const // value -> constant
+	runLoop  *FuncRef               // the VM run loop
+	runSw    *ast.SwitchStmt        // its opcode switch
 	runCase  map[int64]*ast.CaseClause
 	disasm   *FuncRef
 	disSw    *ast.SwitchStmt
@@ -230,18 +230,18 @@ const widthVar = -1 // "variable number of operand bytes"
 // instruction. Such paths are dropped from the comparison.
 const widthJumpedBase = 10001
 
-func isJumped(x int) bool   { return x >= widthJumpedBase-1 }
-func jumpedW(x int) int     { return x - widthJumpedBase }
-func mkJumped(w int) int    { return widthJumpedBase + w }
+func isJumped(x int) bool { return x >= widthJumpedBase-1 }
+func jumpedW(x int) int   { return x - widthJumpedBase }
+func mkJumped(w int) int  { return widthJumpedBase + w }
 
 type vmWidths struct {
-	c       *Ctx
-	info    *types.Info
-	decls   map[*types.Func]*ast.FuncDecl
-	memo    map[*types.Func]set[int]
-	active  map[*types.Func]bool
-	unsupp  []ast.Node
-	nfuncs  int
+	c      *Ctx
+	info   *types.Info
+	decls  map[*types.Func]*ast.FuncDecl
+	memo   map[*types.Func]set[int]
+	active map[*types.Func]bool
+	unsupp []ast.Node
+	nfuncs int
 }
 
 func addW(a, b int) int {
